@@ -37,7 +37,7 @@ pub struct Obs {
     /// balances of the fee collector the pool is configured with
     pub collector: [u128; 3],
     /// balances of the other collector address (configured earlier, or never)
-    pub other_collector: [u128; 3],
+    pub other_collector: Vec<[u128; 3]>,
     pub users: Vec<[u128; 3]>,
     pub users_lp: Vec<u128>,
     pub lp_pair: u128,
@@ -65,8 +65,9 @@ pub fn observe(s: &Pool2) -> Result<Obs, String> {
         all_time: [pick(&fa.fees, 0), pick(&fa.fees, 1)],
         burned: [pick(&fb.fees, 0), pick(&fb.fees, 1)],
         pair_bal: three(&s.pair),
-        collector: three(&s.collector_now),
-        other_collector: three(if s.collector_now == COLLECTOR { COLLECTOR2 } else { COLLECTOR }),
+        // (when the pool is its own collector there is no separate collector account to watch)
+        collector: if s.collector_now == s.pair { [0; 3] } else { three(&s.collector_now) },
+        other_collector: [COLLECTOR, COLLECTOR2].iter().filter(|c| **c != s.collector_now).map(|c| three(c)).collect(),
         users: (0..n).map(|i| three(USERS[i])).collect(),
         users_lp: (0..n).map(|i| s.lp_bal(USERS[i])).collect(),
         lp_pair: s.lp_bal(&s.pair),
@@ -640,27 +641,27 @@ pub fn apply(s: &mut Pool2, step: &Step, ctx: &mut Ctx) {
             global_invariants(s, ctx, &before, &after, r.outcome.is_ok(), "set_fees");
             others_untouched(ctx, "C01", &before, &after, &[], false, "set_fees");
         }
-        Op::SetCollector { second } => {
+        Op::SetCollector { second, to_pool } => {
             let before = match observe(s) { Ok(o) => o, Err(e) => { ctx.fail("C01", "solvency", "queries_fail", None, e); return; } };
-            let target = if *second { COLLECTOR2 } else { COLLECTOR };
+            let target = if *to_pool { s.pair.clone() } else if *second { COLLECTOR2.to_string() } else { COLLECTOR.to_string() };
+            let ext = |s: &Pool2| [[s.bal(COLLECTOR, 0), s.bal(COLLECTOR, 1), s.bal(COLLECTOR, 2)], [s.bal(COLLECTOR2, 0), s.bal(COLLECTOR2, 1), s.bal(COLLECTOR2, 2)]];
+            let ext0 = ext(s);
             let msg = wasm_exec(
                 &s.factory,
-                &white_whale_std::pool_network::factory::ExecuteMsg::UpdatePairConfig { pair_addr: s.pair.clone(), owner: None, fee_collector_addr: Some(target.to_string()), pool_fees: None, feature_toggle: None },
+                &white_whale_std::pool_network::factory::ExecuteMsg::UpdatePairConfig { pair_addr: s.pair.clone(), owner: None, fee_collector_addr: Some(target.clone()), pool_fees: None, feature_toggle: None },
                 vec![],
             );
             let r = tx(&mut s.app, OWNER, vec![msg], Fault::None);
             ctx.op("set_collector", r.outcome.kind());
             ctx.trace(&format!("set_collector:{target}:{}", r.outcome.kind()));
-            let prev = s.collector_now.clone();
             if r.outcome.is_ok() {
-                s.collector_now = target.to_string();
-                ctx.probe("collector_repointed");
+                s.collector_now = target;
+                ctx.probe(if *to_pool { "collector_is_the_pool_itself" } else { "collector_repointed" });
             }
             let after = match observe(s) { Ok(o) => o, Err(e) => { ctx.fail("C01", "solvency", "queries_fail", None, e); return; } };
-            // re-pointing the collector moves nothing: compare like with like
-            let (c_after, o_after) = if prev == s.collector_now { (after.collector, after.other_collector) } else { (after.other_collector, after.collector) };
+            // re-pointing the collector moves nothing
             ctx.eval("C07");
-            if c_after != before.collector || o_after != before.other_collector || after.pair_bal != before.pair_bal || after.pending != before.pending || after.reserves != before.reserves {
+            if ext(s) != ext0 || after.pair_bal != before.pair_bal || after.pending != before.pending || after.reserves != before.reserves {
                 ctx.fail("C07", "nothing_else_moves", "set_collector_moved_funds", None, format!("re-pointing the fee collector changed balances or ledgers: pending {:?} -> {:?}, pool {:?} -> {:?}", before.pending, after.pending, before.pair_bal, after.pair_bal));
             }
             if !r.outcome.is_ok() {
@@ -999,7 +1000,22 @@ fn do_collect(s: &mut Pool2, ctx: &mut Ctx, actor: usize, fault: Fault) {
             ctx.fail("C07", "fault_swallowed", "collect", None, "collection succeeded although a transfer failed".into());
         }
         ctx.eval("C07");
+        let alias = s.collector_now == s.pair;
         for i in 0..2 {
+            if alias {
+                // the pool is its own collector: a collection is a transfer to itself; what was owed counts
+                // as handed over (ledger reset) and from then on belongs to the pool like any donation
+                let p = before.pending[i];
+                let handed = p.saturating_sub(after.pending[i]);
+                s.model.received[i] += handed;
+                let stays_owed = p <= 1000 && handed == 0;
+                if after.pair_bal[i] != before.pair_bal[i] || (!stays_owed && handed != p) || after.reserves[i] != before.reserves[i].saturating_add(handed) {
+                    ctx.fail("C07", "collect_transfers_pending", "self_collector_ledger", None,
+                        format!("collect with the pool as its own collector: asset {i} pending {p} -> {}, pool balance {} -> {}, reserves {} -> {}", after.pending[i], before.pair_bal[i], after.pair_bal[i], before.reserves[i], after.reserves[i]));
+                }
+                ctx.probe("collect_into_the_pool_itself");
+                continue;
+            }
             let got = after.collector[i] - before.collector[i];
             let left = before.pair_bal[i] - after.pair_bal[i];
             s.model.received[i] += got;
